@@ -19,7 +19,11 @@ PROP = "C04"
 POOLS = [1, 2, 3, 4, 8, 16]
 SILENCE_S = 20.0      # no output for this long => look at the CPU clock of the child
 HARD_S = 150.0        # no output for this long => hang whatever the CPU clock says
-FINDING_ID = "F16"
+# request kinds of the generator whose circular error the caller discards.  None in the code of today:
+# `x` (use clause that is not a selected name) propagates since 052b116, `s` (type mark of a signature after an
+# unresolved one) since 3eb236e.  The model keeps the flag (Kernel/Conc.v `swallow`) for the refutation lemmas.
+DISCARDING_KINDS = set()
+FINDING_CLASS = "discarded-circular-error"   # known_findings.json: open C04 entry with match.class == this
 
 
 # ----------------------------------------------------------------------------------------------
@@ -33,7 +37,7 @@ def model_requests(case):
         rs = []
         for r in u["reqs"]:
             k, t, line = r["k"], r["t"], r["line"]
-            if k == "s":
+            if k in DISCARDING_KINDS:
                 rs.append((t, 1, line))
             elif k == "l":
                 for v in units:
@@ -183,7 +187,7 @@ def run_all(hbin, cases_path, workroot, orders, sd, ncases, pools, silence=SILEN
 # ----------------------------------------------------------------------------------------------
 def known_entry():
     for e in known_findings(PROP):
-        if e.get("id") == FINDING_ID and e.get("kind") == "open":
+        if e.get("kind") == "open" and (e.get("match") or {}).get("class") == FINDING_CLASS:
             return e
     return None
 
@@ -216,6 +220,25 @@ def coq_cross_check(res, sample):
                        "log": log[-2000:]}, no_failing_input=True)
 
 
+def symtab_stage(res, hbin, sd, rounds, pools):
+    """direct stress of SymbolTable::{lookup, insert, insert_extended} from t threads"""
+    rc, out = run([hbin, "symtab", str(sd), str(rounds), ",".join(str(t) for t in pools)], timeout=900)
+    tot = 0
+    for line in out.split("\n"):
+        if not line.startswith("{"):
+            continue
+        o = json.loads(line)
+        tot += o["inserts"]
+        res.count_case("symtab %d %d %d" % (sd, rounds, o["threads"]), o["threads"] > 1)
+        if o["problems"]:
+            res.violation("symbol table is schedule dependent under %d threads: %s" % (o["threads"], o["problems"][0]),
+                          {"kind": "symtab", "seed": sd, "rounds": rounds, "threads": o["threads"], "problems": o["problems"],
+                           "replay_cmd": "./check C04 --replay <this file>"})
+    if rc != 0:
+        res.violation("harness `c04 symtab` failed", {"kind": "harness", "log": out[-2000:]}, no_failing_input=True)
+    res.coverage["symtab_concurrent_inserts"] = tot
+
+
 def main(tier, replay=None):
     res = Result(PROP, tier, level="proof")
     d = rundir(PROP)
@@ -232,6 +255,10 @@ def main(tier, replay=None):
         return res.finish()
 
     sd = seed()
+    if replay and json.load(open(replay)).get("kind") == "symtab":
+        rp = json.load(open(replay))
+        symtab_stage(res, hbin, rp["seed"], rp["rounds"], [rp["threads"]])
+        return res.finish()
     cases = []      # (tag, case)
     pools = POOLS
     orders = 6 if thorough else 3
@@ -294,7 +321,7 @@ def main(tier, replay=None):
         return o
 
     hang_cases = {}
-    for h in hangs:
+    for h in sorted(hangs, key=lambda h: (h["case"], h["threads"], h["k"])):
         hang_cases.setdefault(h["case"], []).append(h)
 
     for ci, (tag, case) in enumerate(cases):
@@ -384,14 +411,15 @@ def main(tier, replay=None):
                        % (a[0], a[1], b[0], b[1]))
                 if unsafe:
                     why += (" — the project has a use clause that discards a circular-dependency error on a unit of a "
-                            "dependency cycle (model: C04_confluent_swallow_refuted); proposed known finding %s" % FINDING_ID)
+                            "dependency cycle (model: C04_order_dependent_refuted; known_findings class %s)" % FINDING_CLASS)
                 res.violation(why, replay_obj(ci, "input", detail))
             continue
         # -- correspondence: positions of the CircularDependency diagnostics
         impl_circ = sorted(next(iter(runs.values()))["circ"])
         if unsafe:
-            cands = [predicted_circ(case, reqs, v) for v in (model_finals or [asc.lstrip("!"), desc.lstrip("!")])]
-            okc = impl_circ in cands
+            # several results are possible; they are all known only when the model could be explored
+            cands = [predicted_circ(case, reqs, v) for v in (model_finals or [])]
+            okc = impl_circ in cands or model_finals is None
         else:
             cands = [predicted_circ(case, reqs, asc.lstrip("!"))]
             okc = impl_circ == cands[0] and asc == desc
@@ -405,8 +433,10 @@ def main(tier, replay=None):
                                           "impl_circ": impl_circ, "model_circ": cands[:4], "model": mlines[ci]}),
                               no_failing_input=not bad)
     if known_hits:
-        res.known_finding("%s: %d generated project(s) with a discarded circular-dependency error on a dependency cycle "
-                          "gave schedule-dependent diagnostics (%s)" % (FINDING_ID, known_hits, kf.get("open", "")[:200]))
+        res.known_finding("%s: %d project(s) with a discarded circular-dependency error on a dependency cycle "
+                          "gave schedule-dependent diagnostics (%s)" % (kf.get("id", "?"), known_hits, kf.get("open", "")[:200]))
+    if not replay:
+        symtab_stage(res, hbin, sd, 400 if thorough else 60, pools)
     coq_cross_check(res, sample[:40])
     stats["known_finding_hits"] = known_hits
     res.coverage["exhaustive"] = False
@@ -439,6 +469,7 @@ def main(tier, replay=None):
     res.assumptions = [
         "projects defining one unit name in two files of a library are excepted (never generated)",
         "confluence is claimed for request graphs in which no use clause that discards a circular error targets a unit on/"
-        "reaching a cycle (`swallow_safe`); the complement is the model-level refutation C04_confluent_swallow_refuted / " + FINDING_ID,
+        "reaching a cycle (`swallow_safe`); the complement is the model-level refutation C04_order_dependent_refuted "
+        "(use clause site fixed by 052b116; signature site of subprogram.rs resolve_signature reported)",
     ]
     return res.finish()
